@@ -89,6 +89,7 @@ void mtx_destroy(PlatformSpecificMutex m) { if (g_detector_mutex == m) g_detecto
 
 // ------------------------------------------------------------------ H1 hook: lockset + scheduling outside the lock
 int g_lockset_violations; char g_lockset_tag[32]; long g_h1_points;
+bool g_preempt_inside = false;       // sections "*in": also preempt INSIDE critical sections (catches unprotected shared state that has no observation point of its own)
 void h1_point(const char* tag) {
     g_h1_points++;
     if (!sched::S.active || sched::t_tid < 0) return;
@@ -96,7 +97,7 @@ void h1_point(const char* tag) {
     if (!owned) {
         if (sched::live_threads() > 1 && g_lockset_violations++ == 0) { strncpy(g_lockset_tag, tag, sizeof g_lockset_tag - 1); }
         sched::yield_point(tag);         // unprotected access: let the other threads in right here
-    }
+    } else if (g_preempt_inside) sched::yield_point(tag);
 }
 
 // ------------------------------------------------------------------ recording reporter
@@ -301,6 +302,7 @@ int main(int argc, char** argv) {
     MemoryLeakWarningPlugin::turnOffNewDeleteOverloads();
     // the platform mutex seam must be ours before the global detector (and its SimpleMutex) is created
     PlatformSpecificMutexCreate = mtx_create; PlatformSpecificMutexLock = mtx_lock; PlatformSpecificMutexUnlock = mtx_unlock; PlatformSpecificMutexDestroy = mtx_destroy;
+    sched::on_fatal = []() { cpputest_verif_point = nullptr; MemoryLeakWarningPlugin::turnOffNewDeleteOverloads(); };
     sched::Mutex* global_mutex = nullptr;
     MemoryLeakWarningPlugin::getGlobalDetector();
     if (!g_detector_mutex) {       // a static initialiser created the global detector (with a real mutex) before main: rebuild it on our seam
@@ -314,14 +316,14 @@ int main(int argc, char** argv) {
     { size_t b = (size_t)g_arena; b = (b + 63) & ~(size_t)63; while (b % 73) b += 64; g_base = (char*)b; }
     bool T = vf::thorough();
     vf::info("rule", "every schedule (choice of the next enabled thread at each modelled-mutex operation and at each unprotected detector access) of real threads running allocation scripts through the thread-safe wrappers, up to the preemption bound; all blocks forced into one hash bucket; non-trivial = schedule with >= 1 preemption");
-    struct Cfg { const char* name; int threads, scripts, bound; };
-    const Cfg quick[] = { {"sched2", 2, NSCRIPTS_T, 3}, {"sched3", 3, 4, 2} };
-    const Cfg thor[]  = { {"sched2", 2, NSCRIPTS_T, 4}, {"sched3", 3, 6, 2}, {"sched4", 4, 3, 1} };
-    const Cfg* cfgs = T ? thor : quick; int ncfg = T ? 3 : 2;
+    struct Cfg { const char* name; int threads, scripts, bound; bool inside; };
+    const Cfg quick[] = { {"sched2", 2, NSCRIPTS_T, 3, false}, {"sched3", 3, 4, 2, false}, {"sched2in", 2, 5, 2, true} };
+    const Cfg thor[]  = { {"sched2", 2, NSCRIPTS_T, 4, false}, {"sched3", 3, 6, 2, false}, {"sched4", 4, 3, 1, false}, {"sched2in", 2, NSCRIPTS_T, 2, true}, {"sched3in", 3, 3, 1, true} };
+    const Cfg* cfgs = T ? thor : quick; int ncfg = T ? 5 : 3;
     for (int k = 0; k < ncfg; k++) {
         Cfg c = cfgs[k];
-        vf::info(std::string(c.name) + ".bound", vf::fmt("%d threads, all %d^%d script tuples over {ND,Aa,MF,MRF,N,NNDD,AMaF,MR,NDND}[0..%d), preemption bound %d", c.threads, c.scripts, c.threads, c.scripts, c.bound));
-        vf::section_dfs(c.name, c.threads, false, [&](Chooser& ch) { g_detector_mutex = nullptr; scenario(ch, c.threads, c.scripts, c.bound); });
+        vf::info(std::string(c.name) + ".bound", vf::fmt("%d threads, all %d^%d script tuples over {ND,Aa,MF,MRF,N,NNDD,AMaF,MR,NDND}[0..%d), preemption bound %d%s", c.threads, c.scripts, c.threads, c.scripts, c.bound, c.inside ? ", scheduling points also at every detector observation point inside the critical section" : ""));
+        vf::section_dfs(c.name, c.threads, false, [&](Chooser& ch) { g_detector_mutex = nullptr; g_preempt_inside = c.inside; scenario(ch, c.threads, c.scripts, c.bound); g_preempt_inside = false; });
         vf::require_outcomes(c.name, 20);
     }
     {
